@@ -59,7 +59,7 @@ def run(ctx):
         ctx.neg("AggregateMC", "AggregateNeg2.cfg", expect="I_PickOnlyAgg", workers=2)
     binary = ctx.go_build("internal/zzverif/c35")
     g = ctx.dump_graph("AggregateMC", ctx.pick("AggregateGen.cfg", "AggregateGenT.cfg"))
-    behs = ctx.edge_cover(g, step_of, limit=ctx.pick(500, 12000))
+    behs = ctx.edge_cover(g, step_of, limit=ctx.pick(500, 5000))
     bpath = os.path.join(ctx.run, "beh.ndjson")
     tpath = os.path.join(ctx.run, "trace-replay.ndjson")
     write_ndjson(bpath, behs)
@@ -68,7 +68,7 @@ def run(ctx):
         ctx.count(b, nontrivial=len(b) >= 2, n=3)
     ctx.sample(behs[len(behs) // 2])
     tpath2 = os.path.join(ctx.run, "trace-random.ndjson")
-    n = ctx.pick(150, 6000)
+    n = ctx.pick(150, 3000)
     ctx.driver(binary, "TestVerifC35Random", {"VERIF_OUT": tpath2, "VERIF_N": n})
     ctx.count({"random_runs": n, "seed": ctx.seed}, n=n)
     # one validation run over both traces (replayed TLC behaviours, then the random ones)
